@@ -540,6 +540,12 @@ struct Trans {
 }
 
 fn transition(cfg: &Cfg, mode: Mode, hist: &[Step], op: &WOp, prefix: &[(u32, u32)], e: Epilogue) -> Trans {
+    let describe = || {
+        let mut h2 = hist.to_vec();
+        h2.push(Step { op: op.clone(), choices: prefix.to_vec() });
+        (format!("writer/{}", op_class(op)), format!("after {} earlier operation(s), {op:?} [capacity {:?}, sink {:?}]", hist.len(), cfg.capacity, cfg.fail), replay_value(cfg, mode, &h2, e))
+    };
+    let _guard = mc_core::abortguard::enter(&describe);
     let base_len = forced_of(hist).len();
     let mut w = replay(cfg, hist, prefix);
     let b = before(&w);
